@@ -37,7 +37,8 @@ class Contract:
                  calls: dict | None = None, result: Ty | None = None, locals_: dict | None = None,
                  assumed: bool = False, note: str = "", receiver_cls: str | None = None,
                  ghost: dict | None = None, pure: bool = False, short: str | None = None,
-                 nested_in: str | None = None, abstract_stmts: dict | None = None):
+                 nested_in: str | None = None, abstract_stmts: dict | None = None,
+                 ref_fields: dict | None = None, ref_methods: dict | None = None):
         self.qualname = qualname
         self.prop = prop
         self.params = params or {}  # name -> Ty  (self handled through receiver_cls)
@@ -61,6 +62,9 @@ class Contract:
         # statements outside the property, keyed by their source text (ast.unparse): not executed; a frame
         # obligation shows they write no field the contract talks about (value: allowed field names)
         self.abstract_stmts = abstract_stmts or {}
+        # objects seen as immutable references: (class, field) -> type; (class, method) -> (arg types, result type)
+        self.ref_fields = ref_fields or {}
+        self.ref_methods = ref_methods or {}
 
 
 class Registry:
